@@ -1,7 +1,10 @@
 /-
 Model of `guidedremediation/internal/vulns.IsAffected` (C18).
 
-Versions are ranks in the ecosystem's order: `0` is the literal string "0" (which the Go comparator
+Version STRINGS are spelling ids; the ecosystem's order sees only their rank (two spellings of one rank —
+Maven `1.0` / `1.0.0`, npm `1.0.0` / `1.0.0+b1` — compare equal). Range events are compared, so they carry ranks;
+the explicit `versions` list is matched by string equality (`slices.Contains`), so it carries spelling ids.
+Ranks: `0` is the literal string "0" (which the Go comparator
 and the binary-search callback both special-case as "below everything"), every real version has a
 rank ≥ 1, and `sys.Compare` is modelled as comparison of ranks (trusted: deps.dev `semver.Compare`
 is a total order on the version strings the harness uses; see DESIGN.md §3).
@@ -32,14 +35,15 @@ deriving Repr
 structure Affected where
   eco : Nat
   name : Nat
-  versions : List Nat
+  versions : List Nat     -- spelling ids of the explicitly listed version strings
   ranges : List Range
 deriving Repr
 
 structure Pkg where
   eco : Nat
   name : Nat
-  version : Nat
+  version : Nat           -- rank of the package's version in the ecosystem's order
+  vid : Nat := version    -- spelling id of the package's version string
 deriving Repr
 
 /-- the comparator handed to `slices.SortFunc`, as a strict "less" on ranks -/
@@ -74,7 +78,7 @@ def isAffected (known : Nat → Bool) (vuln : List Affected) (p : Pkg) : Bool :=
   if !known p.eco then false else
   vuln.any fun a =>
     (a.eco = p.eco && a.name = p.name) &&
-      (a.versions.contains p.version ||
+      (a.versions.contains p.vid ||
        a.ranges.any fun r => rangeApplies a r && rangeDecision r.events p.version)
 
 end Scalibr.Vulns
